@@ -106,20 +106,27 @@ pub(crate) fn read_data_block<T: Read + Seek>(
 
 /// A fixed version of read_data_block accounting for differing compressed block sizes in ZiPatch files.
 pub(crate) fn read_data_block_patch<T: Read + Seek>(mut buf: T) -> Option<Vec<u8>> {
-    let block_header = BlockHeader::read(&mut buf).unwrap();
+    let block_header = BlockHeader::read(&mut buf).ok()?;
 
     match block_header.compression {
         CompressionMode::Compressed {
             compressed_length,
             decompressed_length,
         } => {
-            let compressed_length: usize =
-                ((compressed_length as usize + 143) & 0xFFFFFF80) - (block_header.size as usize);
+            // lengths come from the patch: reject negative ones and sizes no deflate stream of that length can produce
+            let compressed_length = usize::try_from(compressed_length).ok()?;
+            let decompressed_length = usize::try_from(decompressed_length).ok()?;
+            if decompressed_length > compressed_length.saturating_mul(MAX_DEFLATE_RATIO) + 64 {
+                return None;
+            }
+
+            let compressed_length: usize = ((compressed_length + 143) & 0xFFFFFF80)
+                .checked_sub(block_header.size as usize)?;
 
             let mut compressed_data: Vec<u8> = vec![0; compressed_length];
             buf.read_exact(&mut compressed_data).ok()?;
 
-            let mut decompressed_data: Vec<u8> = vec![0; decompressed_length as usize];
+            let mut decompressed_data: Vec<u8> = vec![0; decompressed_length];
             if !no_header_decompress(&mut compressed_data, &mut decompressed_data) {
                 return None;
             }
@@ -127,15 +134,23 @@ pub(crate) fn read_data_block_patch<T: Read + Seek>(mut buf: T) -> Option<Vec<u8
             Some(decompressed_data)
         }
         CompressionMode::Uncompressed { file_size } => {
-            let new_file_size: usize = (file_size as usize + 143) & 0xFFFFFF80;
+            let file_size = usize::try_from(file_size).ok()?;
+            let new_file_size: usize = (file_size + 143) & 0xFFFFFF80;
+            let padding = new_file_size
+                .checked_sub(block_header.size as usize)?
+                .checked_sub(file_size)?;
 
-            let mut local_data: Vec<u8> = vec![0; file_size as usize];
-            buf.read_exact(&mut local_data).ok()?;
+            // only allocate what the patch can actually deliver
+            let mut local_data: Vec<u8> = Vec::new();
+            buf.by_ref()
+                .take(file_size as u64)
+                .read_to_end(&mut local_data)
+                .ok()?;
+            if local_data.len() != file_size {
+                return None;
+            }
 
-            buf.seek(SeekFrom::Current(
-                (new_file_size - block_header.size as usize - file_size as usize) as i64,
-            ))
-            .ok()?;
+            buf.seek(SeekFrom::Current(padding as i64)).ok()?;
 
             Some(local_data)
         }
